@@ -30,6 +30,8 @@ var Components = []string{
 	"render+cat", "js:es5+cat", "js:es6+cat",
 	// what Generator.WriteFile(name) gives for every file name that is unique in the bundle
 	"js:writefile",
+	// "" unless compiling the same Bundle object again gave another result
+	"rebundle",
 	// "reuse" is empty unless re-rendering / re-generating on the SAME compiled registry
 	// gave another result than the first time (it then names the component and the difference)
 	"reuse",
@@ -134,12 +136,20 @@ func toGlobals(g map[string]interface{}) data.Map {
 	return m
 }
 
-func compile(files []core.File, order []int, globals map[string]interface{}) (reg *template.Registry, err error) {
+func compile(files []core.File, order []int, globals map[string]interface{}) (*template.Registry, error) {
+	return compileBundle(newBundle(files, order, globals))
+}
+
+func compileBundle(b *soy.Bundle) (reg *template.Registry, err error) {
 	defer func() {
 		if r := recover(); r != nil {
 			reg, err = nil, fmt.Errorf("PANIC in compile: %v", r)
 		}
 	}()
+	return b.Compile()
+}
+
+func newBundle(files []core.File, order []int, globals map[string]interface{}) *soy.Bundle {
 	b := soy.NewBundle()
 	for _, i := range order {
 		b.AddTemplateString(files[i].Name, files[i].Text)
@@ -151,7 +161,111 @@ func compile(files []core.File, order []int, globals map[string]interface{}) (re
 	if src.extra != nil {
 		b.AddGlobalsMap(src.extra)
 	}
-	return b.Compile()
+	return b
+}
+
+// renderAll renders every template of the registry (fixed data), in template-name order.
+func renderAll(reg *template.Registry, withCat bool, cat *catalogue, skipNS string) string {
+	tofu := soyhtml.NewTofu(reg)
+	var names []string
+	for _, t := range reg.Templates {
+		if skipNS == "" || !strings.HasPrefix(t.Node.Name, skipNS+".") {
+			names = append(names, t.Node.Name)
+		}
+	}
+	sort.Strings(names)
+	d := data.New(RenderData()).(data.Map)
+	var b strings.Builder
+	for _, n := range names {
+		b.WriteString("== " + n + "\n")
+		b.WriteString(renderOne(tofu, n, d, withCat, cat))
+		b.WriteString("\n")
+	}
+	return b.String()
+}
+
+// sortedFiles: by name, then by text (several files may share one name).
+func sortedFiles(reg *template.Registry, skipName string) []*ast.SoyFileNode {
+	var files []*ast.SoyFileNode
+	for _, f := range reg.SoyFiles {
+		if skipName == "" || f.Name != skipName {
+			files = append(files, f)
+		}
+	}
+	sort.SliceStable(files, func(i, j int) bool {
+		if files[i].Name != files[j].Name {
+			return files[i].Name < files[j].Name
+		}
+		return files[i].Text < files[j].Text
+	})
+	return files
+}
+
+func jsAll(files []*ast.SoyFileNode, f soyjs.JSFormatter, withCat bool, cat *catalogue) string {
+	var b strings.Builder
+	for _, sf := range files {
+		b.WriteString("//== " + sf.Name + "\n")
+		b.WriteString(genOne(sf, f, withCat, cat))
+		b.WriteString("\n")
+	}
+	return b.String()
+}
+
+const laterFileName = "zz_added_later.soy"
+const laterFileText = "{namespace zzaddedlater}\n/** */\n{template .t}\nadded later\n{/template}\n"
+
+// rebundle compiles the SAME Bundle object again (Compile, CompileToTofu, then with one more file
+// added) and says how the results differ from the first compilation in o ("" = they do not).
+func rebundle(b *soy.Bundle, o Obs, cat *catalogue) (why, was, now string) {
+	verdict := func(err error) (string, string) {
+		if err != nil {
+			return "reject", err.Error()
+		}
+		return "accept", ""
+	}
+	differ := func(what, a, x string) (string, string, string) {
+		return what + " differs when the same Bundle object is compiled again: " + diffHint(a, x), a, x
+	}
+	reg2, err2 := compileBundle(b)
+	if v, e := verdict(err2); v != o["accept"] || e != o["err"] {
+		return differ("the verdict of the second Compile()", o["accept"]+" "+o["err"], v+" "+e)
+	}
+	if err2 == nil {
+		if m, _ := describeMsgs(reg2); m != o["msgs"] {
+			return differ("msgs after the second Compile()", o["msgs"], m)
+		}
+		if js := jsAll(sortedFiles(reg2, ""), soyjs.ES5Formatter{}, false, cat); js != o["js:es5"] {
+			return differ("js:es5 after the second Compile()", o["js:es5"], js)
+		}
+	}
+	var err3 error
+	var tofu *soyhtml.Tofu
+	func() {
+		defer func() {
+			if r := recover(); r != nil {
+				err3 = fmt.Errorf("PANIC in CompileToTofu: %v", r)
+			}
+		}()
+		tofu, err3 = b.CompileToTofu()
+	}()
+	if v, e := verdict(err3); v != o["accept"] || e != o["err"] {
+		return differ("the verdict of CompileToTofu() after Compile()", o["accept"]+" "+o["err"], v+" "+e)
+	}
+	_ = tofu
+	b.AddTemplateString(laterFileName, laterFileText)
+	reg4, err4 := compileBundle(b)
+	if v, e := verdict(err4); v != o["accept"] || e != o["err"] {
+		return differ("the verdict of Compile() after one more (valid) file was added", o["accept"]+" "+o["err"], v+" "+e)
+	}
+	if err4 == nil {
+		if js := jsAll(sortedFiles(reg4, laterFileName), soyjs.ES5Formatter{}, false, cat); js != o["js:es5"] {
+			return differ("js:es5 of the original files after one more file was added", o["js:es5"], js)
+		}
+		if r := renderAll(reg4, false, cat, "zzaddedlater"); r != o["render"] {
+			return differ("render of the original templates after one more file was added", o["render"], r)
+		}
+	}
+	return "", "", ""
 }
 
 // globalSources are the caller-owned globals maps of one case.
@@ -315,7 +429,12 @@ func BuildCatalogue(c *Case) []CatEntry {
 // every observable component.
 func Observe(c *Case, order []int, cat *catalogue) Obs {
 	o := Obs{}
-	reg, err := compile(c.Files, order, c.Globals)
+	bundle := newBundle(c.Files, order, c.Globals)
+	reg, err := compileBundle(bundle)
+	defer func() {
+		// repetition on the SAME Bundle object: Compile again, CompileToTofu, one more file, Compile
+		o["rebundle"], o["rebundle:a"], o["rebundle:b"] = rebundle(bundle, o, cat)
+	}()
 	if err != nil {
 		o["accept"] = "reject"
 		o["err"] = err.Error()
@@ -481,6 +600,8 @@ func Classify(comp string, c *Case, a, b string) core.Sig {
 			return core.Sig{Family: "msg", Feature: "placeholder-names-vary,colliding-base-names"}
 		}
 		return core.Sig{Family: "msg", Feature: "placeholder-names-vary"}
+	case "rebundle":
+		return core.Sig{Family: "compile", Feature: "same-bundle-object-compiled-again-differs"}
 	case "reuse":
 		comp := strings.SplitN(a+b, " ", 2)[0]
 		return core.Sig{Family: "reuse", Feature: strings.TrimSuffix(comp, "+cat") + "-changes-on-the-same-compiled-registry"}
